@@ -8,6 +8,7 @@ import (
 	"math/rand"
 	"os"
 	"path/filepath"
+	goruntime "runtime"
 	"strings"
 	"sync"
 
@@ -294,6 +295,11 @@ func runCase(em *emitter, dir string, c Case, seed int64, ops map[string]bool, b
 	}
 	runExtraOps(em, dir, wdir, c, conc, cseed, ops, bin, gs)
 	gs.prevDir, gs.prev = wdir, w
+	if gs.n%16 == 0 {
+		// the engine opens its cache-hit log on every hit and leaves closing it to the finaliser: collect regularly, or a
+		// long run of eval sweeps exhausts the file descriptors of the process
+		goruntime.GC()
+	}
 }
 
 func init() {
